@@ -32,6 +32,11 @@ def main():
             rc, o = sh("git worktree add --detach %s HEAD -f" % wt, REPO)
             try:
                 rc, o = sh("git apply %s" % os.path.join(seeded, d, "patch.diff"), wt)
+                if rc != 0:          # recorded while utils.py temporarily had LF line endings
+                    rc, o2 = sh("git apply --ignore-whitespace %s" % os.path.join(seeded, d, "patch.diff"), wt)
+                    if rc == 0:          # keep the file's CRLF line endings uniform
+                        sh("/venv/bin/python -c \"import re;p='blackbird_python/blackbird/utils.py';b=open(p,'rb').read();open(p,'wb').write(re.sub(rb'\\r?\\n', b'\\r\\n', b))\"", wt)
+                    o += o2
                 if rc != 0:          # recorded before later fix commits touched the same lines: three-way merge on the recorded blobs
                     rc, o2 = sh("git apply --3way %s && git reset -q" % os.path.join(seeded, d, "patch.diff"), wt)
                     o += o2
